@@ -167,6 +167,33 @@ func runC17(p *load.Program, r *core.Report) {
 			default:
 				r.OK(rule, key, fn, p.Pos(calls[0].Pos()), inst, "single call site, no spawn reachable after it")
 			}
+			// the requested mode is the mode the application runs in: stored before the successful return
+			{
+				key := "C17.A1|" + fn + "|mode-stored"
+				inst := "a successful start records the requested mode (the mode rule of terminate reads it)"
+				modePar := paramOfType(start, "gen.ApplicationMode", 0)
+				if modePar == nil {
+					r.Unk(rule, key, fn, p.Pos(start.Pos()), inst, "start has no ApplicationMode parameter")
+				} else {
+					isStore := func(in ssa.Instruction) bool {
+						s2, ok := in.(*ssa.Store)
+						if !ok {
+							return false
+						}
+						own, fl := fieldOwner(s2.Addr)
+						return own != nil && own.Obj().Name() == "application" && fl == "mode" && (s2.Val == ssa.Value(modePar) || isParamValue(s2.Val, modePar))
+					}
+					bad := reaches([]Point{{start.Blocks[0], 0}}, isStore, func(in ssa.Instruction) bool {
+						ret, ok := in.(*ssa.Return)
+						return ok && errKind(ret.Results[0]) == "nil"
+					})
+					if bad != nil {
+						r.Bad(rule, key, fn, p.Pos(bad.Pos()), inst, "a successful return is reachable without a.mode = mode: the application keeps the mode of its previous run (or the zero mode) and reacts to member terminations by the wrong rule")
+					} else {
+						r.OK(rule, key, fn, p.Pos(start.Pos()), inst, "every successful return passes the store")
+					}
+				}
+			}
 		}
 	}
 
@@ -248,6 +275,72 @@ func runC17(p *load.Program, r *core.Report) {
 				}
 				if len(set) == 0 {
 					probs = append(probs, "mode value set unknown at this site")
+				}
+				// what "stop everything" consists of: on the edge that won the swap (old state was not
+				// Stopping) every member is sent an exit and the causing reason is recorded for the callback
+				if op.Result != nil {
+					var won []Edge
+					for _, rf := range *op.Result.Referrers() {
+						if b, ok := rf.(*ssa.BinOp); ok && (b.Op == token.EQL || b.Op == token.NEQ) {
+							if c, okc := constInt(b.Y); okc && c == st["ApplicationStateStopping"] {
+								t, fl, _ := boolEdges(b)
+								if b.Op == token.EQL {
+									won = append(won, fl...)
+								} else {
+									won = append(won, t...)
+								}
+							}
+						}
+					}
+					var starts []Point
+					for _, e := range won {
+						starts = append(starts, Point{e.To(), 0})
+					}
+					if len(starts) == 0 {
+						probs = append(probs, "the old state returned by the swap is not tested against Stopping")
+					} else {
+						isFanout := func(in ssa.Instruction) bool {
+							cc := callCommon(in)
+							if cc == nil || !callsNamed(in, "Range") {
+								return false
+							}
+							for _, a := range cc.Args {
+								if mc, ok := a.(*ssa.MakeClosure); ok {
+									sends := false
+									eachInstr(mc.Fn.(*ssa.Function), func(i2 ssa.Instruction) {
+										if callsNamed(i2, "SendExit", "RouteSendExit", "Kill") {
+											sends = true
+										}
+									})
+									if sends {
+										return true
+									}
+								}
+							}
+							return false
+						}
+						isRecord := func(in ssa.Instruction) bool {
+							s2, ok := in.(*ssa.Store)
+							if !ok {
+								return false
+							}
+							_, fl := fieldOwner(s2.Addr)
+							return fl == "reason" && (s2.Val == ssa.Value(reasonPar) || isParamValue(s2.Val, reasonPar))
+						}
+						isEnd := func(in ssa.Instruction) bool {
+							if isReturn(in) {
+								return true
+							}
+							// the common tail after the mode switch: the group-emptiness test
+							return callsNamed(in, "Len")
+						}
+						if reaches(starts, isFanout, isEnd) != nil {
+							probs = append(probs, "after winning the swap to Stopping a path does not send an exit to every member: the application stays half alive")
+						}
+						if reaches(starts, isRecord, isEnd) != nil {
+							probs = append(probs, "after winning the swap to Stopping a path does not record the causing reason: the Terminate callback is told 'normal'")
+						}
+					}
 				}
 				if len(probs) > 0 {
 					r.Bad(rule2, key, fn, p.Pos(op.In.Pos()), inst, strings.Join(uniq(probs), "; "))
